@@ -158,15 +158,15 @@ def run(P, R):
             raw = []
             for x in own_nodes(u.node):
                 if isinstance(x, ast.Subscript) and isinstance(x.slice, ast.Name) and x.slice.id == p \
-                        and x.lineno > c.lineno and not _rebound_in_comprehension(u, x, p) \
-                        and not _reassigned_between(u, p, c.lineno, x.lineno):
+                        and (x.lineno, x.col_offset) > (c.lineno, c.col_offset) and not _rebound_in_comprehension(u, x, p) \
+                        and not _reassigned_between(u, p, c, x):
                     raw.append(x)
             # ... nor handed raw to the state machine / context / commanders (they index their tables with it)
             for x in own_nodes(u.node):
-                if isinstance(x, ast.Call) and x.lineno > c.lineno and x is not c and \
+                if isinstance(x, ast.Call) and (x.lineno, x.col_offset) > (c.lineno, c.col_offset) and x is not c and \
                         any(isinstance(a, ast.Name) and a.id == p for a in x.args) and \
                         call_text(x).startswith('self.supvisors.') and 'logger' not in call_text(x) and \
-                        'mapper.filter' not in call_text(x) and not _reassigned_between(u, p, c.lineno, x.lineno):
+                        'mapper.filter' not in call_text(x) and not _reassigned_between(u, p, c, x):
                     R.fail(r7, 'raw-arg|%s|%s' % (name, call_text(x)), u.loc(x),
                            'RPCInterface.%s resolves `%s` through mapper.filter() (nick names / stereotypes accepted) but '
                            'then passes the raw parameter to %s: an unknown identifier is recorded / KeyError' %
@@ -323,7 +323,7 @@ def optional_uses(P, R, rid):
                 elif isinstance(x, ast.Call) and isinstance(x.func, ast.Attribute) and \
                         x.func.attr == 'update_identifier' and any(isinstance(a, ast.Name) and a.id == var for a in x.args):
                     use = 'handed to update_identifier'
-                if not use or x.lineno < min(a.lineno for a in asgs):
+                if not use or (x.lineno, x.col_offset) < min((a.lineno, a.col_offset) for a in asgs):
                     continue
                 n += 1
                 fs = fm.at(x)
@@ -441,9 +441,18 @@ def _rebound_in_comprehension(u, node, name):
     return False
 
 
+def _pos(n, low):
+    """source position of a node (statements folded from a helper share the line of the call: the column orders them)."""
+    if isinstance(n, int):
+        return (n, -1 if low else 10 ** 9)
+    return (n.lineno, n.col_offset)
+
+
 def _reassigned_between(u, name, l1, l2):
+    """is `name` re-bound between the positions l1 and l2 (nodes, or line numbers)?"""
+    p1, p2 = _pos(l1, False), _pos(l2, True)
     for a in own_nodes(u.node):
-        if isinstance(a, ast.Assign) and l1 < a.lineno < l2 and any(
+        if isinstance(a, ast.Assign) and p1 < (a.lineno, a.col_offset) < p2 and any(
                 isinstance(t, ast.Name) and t.id == name for tg in a.targets for t in ast.walk(tg)):
             return True
     return False
